@@ -222,6 +222,40 @@ def none_group_cases():
 
 
 # ---------------------------------------------------------------------------------------------------
+# (1c) a test applied to a jump-bearing value (conditional expression, and/or) as operand of an and/or group: the merge
+#      point of the value's branches is then itself a conditional jump (POP_JUMP_IF_NONE / POP_JUMP_IF_NOT_NONE / ...)
+# ---------------------------------------------------------------------------------------------------
+JUMP_VALUE_CONTEXTS = ('gen_cond', 'gen_cond_2of2', 'lam', 'gen_elt')
+
+
+def jump_value_test_trees():
+    """X = test(J), J in {conditional expression with a name / and / or / not / 3-and / not-and test, `N and N`, `N or N`},
+    test in {is None, is not None, == N, not}; X is put at every position of an and/or group of 2-3 operands (the others are
+    names); the group is taken alone, negated, and as first / last operand of the other operator"""
+    N = ('N',)
+    tests = [N, ('and', N, N), ('or', N, N), ('not', N), ('and', N, N, N), ('and', ('not', N), N)]
+    values = [('if', t, N, N) for t in tests] + [('and', N, N), ('or', N, N)]
+    out = []
+    for j in values:
+        for x in (('isnone', j), ('notnone', j), ('eq', j, N), ('not', j)):
+            for op in ('and', 'or'):
+                other = 'or' if op == 'and' else 'and'
+                for arr in ((x, N), (N, x), (x, N, N), (N, x, N), (N, N, x)):
+                    group = (op,) + arr
+                    out.append(group)
+                    out.append(('not', group))
+                    out.append((other, group, N))
+                    out.append((other, N, group))
+    return out
+
+
+def jump_value_test_cases():
+    for tree in jump_value_test_trees():
+        for ctxname in JUMP_VALUE_CONTEXTS:
+            yield (ctxname, tree)
+
+
+# ---------------------------------------------------------------------------------------------------
 # (2) value-construct templates x operand fillers (complete grid)
 # ---------------------------------------------------------------------------------------------------
 TEMPLATES = (
